@@ -14,6 +14,7 @@ import Proofs.Lemmas.InprocHdrSrv
 import Proofs.Lemmas.InprocUnaryAll
 import Proofs.Lemmas.HttpServerStream
 import Proofs.Lemmas.HttpUnary
+import Model.TrailerSplit
 
 namespace Metadata
 
@@ -314,3 +315,63 @@ theorem C03_as_metadata_keeps_values_whole :
     Gen.asMetadataCalls = ["DecodeString", "HasSuffix", "ToLower", "append", "string"] := by decide
 
 end Metadata
+
+namespace TrailerSplit
+open Prim
+
+theorem isTrailerKey_pfx_append (k : Key) (hk : k ≠ []) : isTrailerKey (pfx ++ k) = true := by
+  unfold isTrailerKey
+  have h1 : pfx.isPrefixOf (pfx ++ k) = true := by
+    rw [List.isPrefixOf_iff_prefix]; exact List.prefix_append _ _
+  have h2 : (pfx ++ k).drop pfx.length = k := by simp
+  rw [h1, h2]
+  cases k with
+  | nil => exact absurd rfl hk
+  | cons a r => rfl
+
+/-- **Headers and trailers of a unary HTTP reply come apart again exactly** — for every header map and every trailer map
+    (any number of keys, any values), as long as no *header* key lies under the protocol's own trailer prefix and no trailer
+    key is empty: the client's headers are the handler's headers, the client's trailers the handler's trailers.
+    (`_partial`: without the hypothesis on header keys the statement is false — next theorem; same root as known finding
+    C02-F2 / C14-F1, the reply's header block is one name space shared by protocol and application.) -/
+theorem C03_unary_trailer_split_roundtrip_partial (h t : MD)
+    (hh : ∀ kv ∈ h, isTrailerKey kv.1 = false) (ht : ∀ kv ∈ t, kv.1 ≠ []) :
+    clientHeaders (serverMerge h t) = h ∧ clientTrailers (serverMerge h t) = t := by
+  unfold clientHeaders clientTrailers serverMerge
+  have hf1 : h.filter (fun kv => !isTrailerKey kv.1) = h := by
+    apply List.filter_eq_self.mpr; intro kv hkv; simp [hh kv hkv]
+  have hf2 : h.filter (fun kv => isTrailerKey kv.1) = [] := by
+    apply List.filter_eq_nil_iff.mpr; intro kv hkv; simp [hh kv hkv]
+  have ht1 : (t.map (fun kv => (pfx ++ kv.1, kv.2))).filter (fun kv => !isTrailerKey kv.1) = [] := by
+    apply List.filter_eq_nil_iff.mpr
+    intro kv hkv
+    obtain ⟨x, hx, rfl⟩ := List.mem_map.mp hkv
+    simp [isTrailerKey_pfx_append x.1 (ht x hx)]
+  have ht2 : (t.map (fun kv => (pfx ++ kv.1, kv.2))).filter (fun kv => isTrailerKey kv.1) = t.map (fun kv => (pfx ++ kv.1, kv.2)) := by
+    apply List.filter_eq_self.mpr
+    intro kv hkv
+    obtain ⟨x, hx, rfl⟩ := List.mem_map.mp hkv
+    exact isTrailerKey_pfx_append x.1 (ht x hx)
+  constructor
+  · rw [List.filter_append, hf1, ht1, List.append_nil]
+  · rw [List.filter_append, hf2, ht2, List.nil_append, List.map_map]
+    have : ((fun kv : Key × List Nat => (kv.1.drop pfx.length, kv.2)) ∘ fun kv => (pfx ++ kv.1, kv.2)) = id := by
+      funext kv; simp
+    rw [this, List.map_id]
+
+/-- the excluded case is real: header metadata under `x-grpc-trailer-k` reaches the caller as *trailer* `k` -/
+theorem C03_unary_header_under_trailer_prefix_becomes_trailer :
+    clientTrailers (serverMerge [(pfx ++ [107], [1])] []) = [([107], [1])] ∧
+    clientHeaders (serverMerge [(pfx ++ [107], [1])] []) = [] := by
+  constructor <;> decide +kernel
+
+/-- server and client agree on the prefix up to the case the client folds away (regenerated from both files) -/
+theorem C03_trailer_prefix_sites : Prim.toLower (Prim.str Gen.trailerPrefixServer) = Prim.str Gen.trailerPrefixClient := by
+  decide +kernel
+
+/-- non-vacuity: two headers, two trailers (one multi-valued) -/
+example : clientHeaders (serverMerge [([97], [1]), ([98], [2, 3])] [([99], [4]), ([100], [5, 6])]) = [([97], [1]), ([98], [2, 3])] ∧
+    clientTrailers (serverMerge [([97], [1]), ([98], [2, 3])] [([99], [4]), ([100], [5, 6])]) = [([99], [4]), ([100], [5, 6])] :=
+  C03_unary_trailer_split_roundtrip_partial _ _ (by decide +kernel) (by decide)
+
+end TrailerSplit
